@@ -44,7 +44,10 @@ type FuncContract struct {
 	inline   bool
 	trusted  bool
 	opaque   []string // callees to treat as opaque (havoc) in this function
+	onRecv   []*Clause // ghost effect of every channel receive in this function (v = value, ok = a value was received)
+	onSend   []*Clause // obligations and ghost effect of every channel send (v = value, ok = the send happened)
 	noSafety bool // run-time safety of this function is not checked: obligations hold for executions without panic
+	callPres map[string][]*Clause // assertions at calls to a callee, stated by the caller (a0.. = actual arguments)
 	callMods map[string]*Clause // assumed frames of uninterpreted callees, stated at the caller
 	inlines  []string // callees to force-inline in this function
 	loops    map[int]*LoopContract
@@ -243,7 +246,7 @@ func parseSpecExpr(text string) (ast.Expr, error) {
 	return e, nil
 }
 
-var kwRe = regexp.MustCompile(`^(nosafety|callmod|frameonly|puredyn|extern|macro|chan|gset|func|iface|spec|lemma|ghost|import|requires|ensures|modifies|inline|trusted|noverify|pure|fresh|loop|let|props|opaque|inlines|panics_when|depth|maxpaths|reveal|split|waitinv)\b`)
+var kwRe = regexp.MustCompile(`^(callpre|onrecv|onsend|nosafety|callmod|frameonly|puredyn|extern|macro|chan|gset|func|iface|spec|lemma|ghost|import|requires|ensures|modifies|inline|trusted|noverify|pure|fresh|loop|let|props|opaque|inlines|panics_when|depth|maxpaths|reveal|split|waitinv)\b`)
 
 // ParseContractFile extracts contracts from the //@ lines of a file.
 func ParseContractFile(pkgPath, file string, src []byte, pc *PkgContracts) error {
@@ -476,6 +479,22 @@ func ParseContractFile(pkgPath, file string, src []byte, pc *PkgContracts) error
 					c.exprs = append(c.exprs, e)
 				}
 				cur.modifies = append(cur.modifies, c)
+			case "callpre":
+				// callpre <callee>: <expr>   must hold whenever this function calls <callee>; a0, a1, ... are
+				// the actual arguments (receiver first), evaluated with the caller's variables at the call
+				i := strings.Index(rest, ":")
+				if i < 0 {
+					return fmt.Errorf("%s:%d: callpre <callee>: <expr>", file, it.line)
+				}
+				c, err := mk("callpre", strings.TrimSpace(rest[i+1:]))
+				if err != nil {
+					return err
+				}
+				callee := strings.TrimSpace(rest[:i])
+				if cur.callPres == nil {
+					cur.callPres = map[string][]*Clause{}
+				}
+				cur.callPres[callee] = append(cur.callPres[callee], c)
 			case "callmod":
 				// callmod <callee>: <designators>   assumed frame of an uninterpreted callee, stated where it
 				// is called (the designators are evaluated in the caller at the call)
@@ -509,6 +528,43 @@ func ParseContractFile(pkgPath, file string, src []byte, pc *PkgContracts) error
 				cur.pureDyn = true
 			case "nosafety":
 				cur.noSafety = true
+			case "onrecv", "onsend":
+				// onrecv assume e | onrecv gset l := r | onsend requires e | onsend gset l := r
+				f := strings.SplitN(rest, " ", 2)
+				if len(f) != 2 {
+					return fmt.Errorf("%s:%d: %s <assume|requires|gset> ...", file, it.line, kw)
+				}
+				var c *Clause
+				switch f[0] {
+				case "assume", "requires":
+					cc, err := mk(f[0], strings.TrimSpace(f[1]))
+					if err != nil {
+						return err
+					}
+					c = cc
+				case "gset":
+					i := strings.Index(f[1], ":=")
+					if i < 0 {
+						return fmt.Errorf("%s:%d: gset lhs := rhs", file, it.line)
+					}
+					cc, err := mk("gset", strings.TrimSpace(f[1][i+2:]))
+					if err != nil {
+						return err
+					}
+					lhs, err := parser.ParseExpr(strings.TrimSpace(f[1][:i]))
+					if err != nil {
+						return fmt.Errorf("%s:%d: %v", file, it.line, err)
+					}
+					cc.exprs = []ast.Expr{lhs}
+					c = cc
+				default:
+					return fmt.Errorf("%s:%d: %s <assume|requires|gset> ...", file, it.line, kw)
+				}
+				if kw == "onrecv" {
+					cur.onRecv = append(cur.onRecv, c)
+				} else {
+					cur.onSend = append(cur.onSend, c)
+				}
 			case "inline":
 				cur.inline = true
 			case "trusted":
